@@ -564,7 +564,7 @@ def exhaustive_sequences(o, length, kind="map"):
 
 def shapes_cases(o):
     """other element shapes (padding, unsized borrowed forms), one self-checking scenario per capacity."""
-    for cap in (0, 1, 2, 3, 4, 6):
+    for cap in (0, 1, 2, 3, 4, 6, 64):
         o.case(m0=cap, m1=cap, tag="s")
         o.op("m0 shapes", test=True)
         o.end()
@@ -902,6 +902,7 @@ def gen_C05(o, rng, tier):
 
 
 def gen_C06(o, rng, tier):
+    shapes_cases(o)
     # whole language once per state of a small product + random; `al` and `in` are what matters
     n = 2 if tier == "quick" else 3
 
@@ -984,6 +985,7 @@ def set_ops_basic(reg, u):
 
 def gen_C07(o, rng, tier):
     boundary_cases(o, "s")
+    shapes_cases(o)
     n = tier_n(tier)
     for nn in range(0, n + 1):
         u = list(range(nn + 1))
@@ -1190,6 +1192,7 @@ def gen_C12(o, rng, tier):
 def gen_C13(o, rng, tier, unchecked=False, eq="lawful"):
     if eq == "lawful":
         boundary_cases(o, "gu" if unchecked else "g")
+        shapes_cases(o)
     n = tier_n(tier)
     name = "gdum" if unchecked else "gdm"
     for nn in range(0, n + 1):
@@ -1469,6 +1472,7 @@ def gen_C16(o, rng, tier):
 
 
 def gen_C17(o, rng, tier):
+    shapes_cases(o)
     nseeds = 6 if tier == "quick" else 40
     # product of small states x every operation under fixed-but-lying oracles
     n = 2 if tier == "quick" else 3
